@@ -211,8 +211,7 @@ def run_harnesses(scratch, config, names, jobs, timeout_s, per_harness_timeout="
         st = stats.get(hid, {})
         checks = r.get("checks", [])
         failed = [c for c in checks if c.get("status") == "Failure"]
-        covers = [c for c in checks if c.get("category") == "cover" or str(c.get("status", "")).upper() in
-                  ("SATISFIED", "UNSATISFIABLE", "UNREACHABLE", "UNCOVERED", "COVERED")]
+        covers = [c for c in checks if c.get("category") == "cover"]
         results[hid] = {
             "harness": hid,
             "status": r.get("status"),
